@@ -15,6 +15,7 @@ import (
 
 	_ "github.com/containerd/nri/pkg/api"
 	"google.golang.org/protobuf/encoding/prototext"
+	"google.golang.org/protobuf/encoding/protowire"
 	"google.golang.org/protobuf/proto"
 	"google.golang.org/protobuf/reflect/protoreflect"
 	"google.golang.org/protobuf/reflect/protoregistry"
@@ -278,6 +279,33 @@ func c12Check(res *ev.Result, mt protoreflect.MessageType, msg proto.Message, ho
 	return ok
 }
 
+// c12Unknown encodes n fields with numbers no message of this protocol uses: varints up to ten bytes long
+// (a negative int64, a uint64 above 2^63), fixed-width values and byte strings.
+func c12Unknown(g *c12gen, n int) []byte {
+	var b []byte
+	for i := 0; i < n; i++ {
+		num := protowire.Number(1900 + g.rng.IntN(50))
+		switch g.rng.IntN(5) {
+		case 0:
+			b = protowire.AppendTag(b, num, protowire.VarintType)
+			b = protowire.AppendVarint(b, uint64(g.rng.IntN(300)))
+		case 1:
+			b = protowire.AppendTag(b, num, protowire.VarintType)
+			b = protowire.AppendVarint(b, ^uint64(g.rng.IntN(1000))) // ten bytes: a negative int64 / a huge uint64
+		case 2:
+			b = protowire.AppendTag(b, num, protowire.Fixed64Type)
+			b = protowire.AppendFixed64(b, g.rng.Uint64())
+		case 3:
+			b = protowire.AppendTag(b, num, protowire.Fixed32Type)
+			b = protowire.AppendFixed32(b, g.rng.Uint32())
+		default:
+			b = protowire.AppendTag(b, num, protowire.BytesType)
+			b = protowire.AppendBytes(b, []byte(fmt.Sprintf("later-revision-%d", g.rng.Uint32())))
+		}
+	}
+	return b
+}
+
 func runC12(c *ev.ChildEnv, res *ev.Result) {
 	types := c12Types()
 	if c.Batch == 0 {
@@ -307,10 +335,25 @@ func runC12(c *ev.ChildEnv, res *ev.Result) {
 				}
 			}
 		}
+		// fields of a later protocol revision (unknown to this build): both codecs keep them, in order
+		for v := 0; v < 6; v++ {
+			m := mt.New()
+			if v%2 == 1 {
+				g.fill(m, 3, 0.5)
+			}
+			m.SetUnknown(c12Unknown(g, 1+v%3))
+			res.Eval()
+			if c12Check(res, mt, m.Interface(), fmt.Sprintf("%d unknown fields", 1+v%3)) {
+				res.Seen(fmt.Sprintf("%s|unknown-fields|%d", name, 1+v%3))
+			}
+		}
 		// random combinations
 		for i := 0; i < per; i++ {
 			m := mt.New()
 			g.fill(m, 4, []float64{0.2, 0.5, 0.9}[i%3])
+			if i%16 == 5 {
+				m.SetUnknown(c12Unknown(g, 1+g.rng.IntN(3)))
+			}
 			res.Eval()
 			if c12Check(res, mt, m.Interface(), "random") && i < 3 {
 				txt, _ := prototext.MarshalOptions{}.Marshal(m.Interface())
